@@ -758,9 +758,12 @@ impl Config {
       .unwrap()
       .into();
 
-    // chrono panics when an invalid format is displayed
-    if chrono::format::StrftimeItems::new(&timestamp_format)
-      .any(|item| matches!(item, chrono::format::Item::Error))
+    // chrono panics when a format that cannot be displayed is displayed
+    if fmt::write(
+      &mut String::new(),
+      format_args!("{}", chrono::Local::now().format(&timestamp_format)),
+    )
+    .is_err()
     {
       return Err(ConfigError::TimestampFormat {
         format: timestamp_format,
